@@ -768,4 +768,279 @@ theorem getRangeRows_core (rows : List (Nat × List α)) (hrep : ∀ x ∈ rows,
     rw [h2, htA]
     congr 1 <;> congr 1 <;> omega
 
+/-! ### the result against the semantic expansion -/
+
+theorem gridF_eq (rows : List (Nat × List α)) (r c : Nat) :
+    gridF rows r c = ((expR rows)[r]?.getD []).getD c default := by
+  unfold gridF; rw [runAt_eq]
+  cases (expR rows)[r]? <;> simp
+
+/-- a non-default grid value sits in one of the rows -/
+theorem gridF_mem (rows : List (Nat × List α)) (r c : Nat) (h : gridF rows r c ≠ default) :
+    ∃ x ∈ rows, x.2.getD c default = gridF rows r c := by
+  rw [gridF_eq] at h ⊢
+  cases hr : (expR rows)[r]? with
+  | none => rw [hr] at h; simp at h
+  | some cs =>
+    obtain ⟨x, hx, rfl⟩ := mem_expR rows cs (List.mem_of_getElem? hr)
+    exact ⟨x, hx, by simp⟩
+
+theorem gridF_of_mem (rows : List (Nat × List α)) (x : Nat × List α) (hx : x ∈ rows) (h1 : 1 ≤ x.1) :
+    ∃ r, ∀ c, gridF rows r c = x.2.getD c default := by
+  obtain ⟨r, hr⟩ := expR_of_mem rows x hx h1
+  exact ⟨r, fun c => by rw [gridF_eq, hr]; simp⟩
+
+theorem valAt_empty (p q : Nat) : (Range.empty : Rng α).valAt p q = default := by
+  apply Range.valAt_of_out; simp [Range.empty]
+
+/-- **flat level**: on the vectors `read_table` builds from explicit rows with repeat counts,
+    `get_range` returns a consistent rectangle that is the tight bounding box of the non-default
+    positions of the expansion and holds the expansion's value at every position -/
+theorem getRangeRows_spec (rows : List (Nat × List α)) (hrep : ∀ x ∈ rows, 1 ≤ x.1)
+    (hfit : ∀ r c, gridF rows r c ≠ default → r < U32 ∧ c < U32) :
+    Inv (getRangeRows true (rows.map (·.2)) (rows.map (·.1))) ∧
+    (∀ r c, (getRangeRows true (rows.map (·.2)) (rows.map (·.1))).valAt r c = gridF rows r c) ∧
+    ((getRangeRows true (rows.map (·.2)) (rows.map (·.1))).inner.length = 0 ↔ ∀ r c, gridF rows r c = default) ∧
+    ((getRangeRows true (rows.map (·.2)) (rows.map (·.1))).inner.length ≠ 0 →
+      IsBBox (gridF rows) (getRangeRows true (rows.map (·.2)) (rows.map (·.1))).sr
+        (getRangeRows true (rows.map (·.2)) (rows.map (·.1))).sc
+        (getRangeRows true (rows.map (·.2)) (rows.map (·.1))).er
+        (getRangeRows true (rows.map (·.2)) (rows.map (·.1))).ec) ∧
+    ((getRangeRows true (rows.map (·.2)) (rows.map (·.1))).inner.length = 0 →
+      getRangeRows true (rows.map (·.2)) (rows.map (·.1)) = Range.empty) := by
+  have hcol : ∀ x ∈ rows, ∀ c, x.2.getD c default ≠ default → c < U32 := by
+    intro x hx c hc
+    obtain ⟨r, hr⟩ := gridF_of_mem rows x hx (hrep x hx)
+    exact (hfit r c (by rw [hr c]; exact hc)).2
+  rcases getRangeRows_core rows hrep hcol with ⟨hall, he⟩ |
+    ⟨A, M1, y, B, cmin, cmax, eR, hAe, hBe, hye, ⟨x, M', eM, hxe⟩, hcc, hbound, ⟨xl, hxl, hl⟩, ⟨xr, hxr, hr⟩, he⟩
+  · rw [he]
+    have hdef : ∀ r c, gridF rows r c = default := by
+      intro r c
+      apply Classical.byContradiction
+      intro hn
+      obtain ⟨x, hx, e⟩ := gridF_mem rows r c hn
+      exact hn (by rw [← e]; exact getD_of_isEmptyRow x.2 (hall x hx) c)
+    refine ⟨?_, fun r c => by rw [valAt_empty, hdef], ⟨fun _ => hdef, fun _ => rfl⟩, fun h => absurd rfl h,
+      fun _ => rfl⟩
+    constructor <;> simp [Range.empty, Rng.height, Rng.width]
+  · -- notation
+    have hrows : rows = A ++ ((M1 ++ [y]) ++ B) := by rw [eR]; simp
+    have hexp : expR rows = expR A ++ (expR (M1 ++ [y]) ++ expR B) := by rw [hrows, expR_append, expR_append]
+    have hlenA : (expR A).length = total A := expR_length A
+    have hlenM : (expR (M1 ++ [y])).length = total (M1 ++ [y]) := expR_length _
+    have hy1 : 1 ≤ y.1 := hrep y (by rw [eR]; simp)
+    have hx1 : 1 ≤ x.1 := hrep x (by
+      have : x ∈ M1 ++ [y] := by rw [eM]; simp
+      rw [hrows]; simp only [List.mem_append]; exact Or.inr (Or.inl (by simpa using this)))
+    have hH : total (M1 ++ [y]) = total M1 + y.1 := by simp [total]
+    -- the three row zones
+    have hF1 : ∀ r c, r < total A → gridF rows r c = default := by
+      intro r c hr
+      rw [gridF_eq, hexp, List.getElem?_append_left (by omega)]
+      cases hcs : (expR A)[r]? with
+      | none => simp
+      | some cs =>
+        obtain ⟨a, ha, rfl⟩ := mem_expR A cs (List.mem_of_getElem? hcs)
+        simpa using getD_of_isEmptyRow a.2 (hAe a ha) c
+    have hF2 : ∀ i c, i < total (M1 ++ [y]) →
+        gridF rows (total A + i) c = ((expR (M1 ++ [y]))[i]?.getD []).getD c default := by
+      intro i c hi
+      rw [gridF_eq, hexp, List.getElem?_append_right (by omega), List.getElem?_append_left (by omega)]
+      congr 3; omega
+    have hF3 : ∀ r c, total A + total (M1 ++ [y]) ≤ r → gridF rows r c = default := by
+      intro r c hr
+      rw [gridF_eq, hexp, List.getElem?_append_right (by omega), List.getElem?_append_right (by omega)]
+      cases hcs : (expR B)[r - (expR A).length - (expR (M1 ++ [y])).length]? with
+      | none => simp
+      | some cs =>
+        obtain ⟨b, hb, rfl⟩ := mem_expR B cs (List.mem_of_getElem? hcs)
+        simpa using getD_of_isEmptyRow b.2 (hBe b hb) c
+    -- witnesses
+    have htop : ∃ c, gridF rows (total A) c ≠ default := by
+      obtain ⟨p, hp⟩ := position_of_not_empty x.2 hxe
+      refine ⟨p, ?_⟩
+      have := hF2 0 p (by omega)
+      rw [Nat.add_zero] at this
+      rw [this, eM]
+      simp only [expR, List.flatMap_cons]
+      rw [List.getElem?_append_left (by simp; omega), List.getElem?_replicate, if_pos (by omega)]
+      exact (position_some x.2 p hp).2.1
+    have hbot : ∃ c, gridF rows (total A + total (M1 ++ [y]) - 1) c ≠ default := by
+      obtain ⟨p, hp⟩ := position_of_not_empty y.2 hye
+      refine ⟨p, ?_⟩
+      have := hF2 (total (M1 ++ [y]) - 1) p (by omega)
+      rw [show total A + (total (M1 ++ [y]) - 1) = total A + total (M1 ++ [y]) - 1 by omega] at this
+      rw [this, expR_append]
+      rw [List.getElem?_append_right (by rw [expR_length]; omega), expR_length]
+      simp only [expR, List.flatMap_cons, List.flatMap_nil, List.append_nil]
+      rw [List.getElem?_replicate, if_pos (by omega)]
+      exact (position_some y.2 p hp).2.1
+    have hleft : ∃ r, gridF rows r cmin ≠ default := by
+      obtain ⟨r, hr'⟩ := gridF_of_mem rows xl hxl (hrep xl hxl)
+      exact ⟨r, by rw [hr']; exact hl⟩
+    have hright : ∃ r, gridF rows r cmax ≠ default := by
+      obtain ⟨r, hr'⟩ := gridF_of_mem rows xr hxr (hrep xr hxr)
+      exact ⟨r, by rw [hr']; exact hr⟩
+    have hB : ∀ r c, gridF rows r c ≠ default →
+        total A ≤ r ∧ r ≤ total A + total (M1 ++ [y]) - 1 ∧ cmin ≤ c ∧ c ≤ cmax := by
+      intro r c h
+      obtain ⟨z, hz, e⟩ := gridF_mem rows r c h
+      have := hbound z hz c (by rw [e]; exact h)
+      refine ⟨?_, ?_, this.1, this.2⟩
+      · apply Classical.byContradiction; intro hn; exact h (hF1 r c (by omega))
+      · apply Classical.byContradiction; intro hn; exact h (hF3 r c (by omega))
+    -- the casts are the identity
+    obtain ⟨cb, hcb⟩ := hbot
+    obtain ⟨rr, hrr⟩ := hright
+    have hr1 := (hfit _ _ hcb).1
+    have hc1 := (hfit _ _ hrr).2
+    rw [he, Nat.mod_eq_of_lt (by omega : total A < U32), Nat.mod_eq_of_lt (by omega : cmin < U32),
+      Nat.mod_eq_of_lt hr1, Nat.mod_eq_of_lt hc1]
+    have hlen : (dense cmin cmax (expR (M1 ++ [y]))).length =
+        (total A + total (M1 ++ [y]) - 1 - total A + 1) * (cmax - cmin + 1) := by
+      rw [dense_length, hlenM]; congr 1 <;> omega
+    have hinv := Range.mkInv (total A) cmin (total A + total (M1 ++ [y]) - 1) cmax _ (by omega) hcc hlen
+    have hne : (dense cmin cmax (expR (M1 ++ [y]))).length ≠ 0 := by
+      rw [hlen]; exact Nat.ne_of_gt (Nat.mul_pos (by omega) (by omega))
+    refine ⟨hinv, ?_, ?_, ?_, fun h => absurd h hne⟩
+    · intro r c
+      by_cases hin : total A ≤ r ∧ r ≤ total A + total (M1 ++ [y]) - 1 ∧ cmin ≤ c ∧ c ≤ cmax
+      · rw [Range.valAt_of_in _ r c hne hin, hinv.width_eq hne]
+        simp only
+        rw [show cmax - cmin + 1 = cmax + 1 - cmin by omega,
+          dense_getD cmin cmax _ (r - total A) (c - cmin) (by omega) (by omega),
+          ← hF2 (r - total A) (cmin + (c - cmin)) (by omega)]
+        congr 1 <;> omega
+      · rw [Range.valAt_of_out _ r c (fun h => hin h.2)]
+        apply Classical.byContradiction
+        intro hn
+        exact hin (hB r c (fun h => hn h.symm))
+    · simp only
+      constructor
+      · intro h; exact absurd h hne
+      · intro h; obtain ⟨c, hc⟩ := htop; exact absurd (h _ c) hc
+    · intro _
+      exact ⟨hB, htop, ⟨cb, hcb⟩, hleft, ⟨rr, hrr⟩⟩
+
+/-! ### `read_row`: pending blank runs -/
+
+/-- what `read_row` leaves in the vector, column by column: the pending blanks, then the value of the
+    covering event; blank runs at the end of the row are simply absent (default beyond the end) -/
+theorem readRow_getD {ε : Type} (pend : ε → Bool) (val : ε → α) (hp : ∀ e, pend e = true → val e = default) :
+    ∀ (evs : List (ε × Nat)) (pending c : Nat),
+    (readRow pend val evs pending).getD c default =
+      if c < pending then default else cellAt (evs.map fun x => (val x.1, x.2)) (c - pending)
+  | [], pending, c => by simp [readRow, cellAt]
+  | (e, k) :: rest, pending, c => by
+    rw [readRow]
+    by_cases hc : c < pending
+    · rw [if_pos hc, List.getD_eq_getElem?_getD, List.getElem?_append_left (by simpa using hc),
+        List.getElem?_replicate, if_pos hc]; rfl
+    · rw [if_neg hc, List.getD_eq_getElem?_getD, List.getElem?_append_right (by simpa using Nat.le_of_not_lt hc),
+        List.length_replicate, ← List.getD_eq_getElem?_getD]
+      simp only [List.map_cons, cellAt]
+      by_cases hpe : pend e = true
+      · rw [if_pos hpe, readRow_getD pend val hp rest k (c - pending), hp e hpe]
+      · rw [if_neg hpe]
+        by_cases hk : c - pending < k
+        · rw [if_pos hk, List.getD_eq_getElem?_getD, List.getElem?_append_left (by simpa using hk),
+            List.getElem?_replicate, if_pos hk]; rfl
+        · rw [if_neg hk, List.getD_eq_getElem?_getD,
+            List.getElem?_append_right (by simpa using Nat.le_of_not_lt hk), List.length_replicate,
+            ← List.getD_eq_getElem?_getD, readRow_getD pend val hp rest 0 (c - pending - k)]
+          simp
+
+theorem runAt_map {β γ : Type} (g : β → γ) : ∀ (L : List (Nat × β)) (i : Nat),
+    runAt (L.map fun r => (r.1, g r.2)) i = (runAt L i).map g
+  | [], i => rfl
+  | (k, x) :: rest, i => by
+    simp only [List.map_cons, runAt]
+    split
+    · rfl
+    · exact runAt_map g rest (i - k)
+
+/-- generic `read_table`: rows of events with payloads, one output vector -/
+def collectG {ε : Type} (pend : ε → Bool) (val : ε → α) (runs : List (Nat × List (ε × Nat))) : List (Nat × List α) :=
+  runs.map fun r => (r.1, readRow pend val r.2 0)
+
+/-- the run list seen through `val` -/
+def runsOf {ε : Type} (val : ε → α) (runs : List (Nat × List (ε × Nat))) : List (RowRun α) :=
+  runs.map fun r => (r.1, r.2.map fun x => (val x.1, x.2))
+
+theorem gridF_collectG {ε : Type} (pend : ε → Bool) (val : ε → α) (hp : ∀ e, pend e = true → val e = default)
+    (runs : List (Nat × List (ε × Nat))) (r c : Nat) :
+    gridF (collectG pend val runs) r c = expand (runsOf val runs) r c := by
+  unfold gridF expand collectG runsOf
+  rw [runAt_map (fun evs => readRow pend val evs 0) runs r,
+    runAt_map (fun (evs : List (ε × Nat)) => evs.map fun x => (val x.1, x.2)) runs r]
+  cases runAt runs r with
+  | none => rfl
+  | some evs =>
+    simp only [Option.map_some]
+    rw [readRow_getD pend val hp evs 0 c]
+    simp
+
+/-! ### uniqueness: a range is determined by its bounding box and its values -/
+
+theorem IsBBox.unique {g : Nat → Nat → α} {a b c d a' b' c' d' : Nat}
+    (h : IsBBox g a b c d) (h' : IsBBox g a' b' c' d') : a = a' ∧ b = b' ∧ c = c' ∧ d = d' := by
+  obtain ⟨t, ht⟩ := h.top
+  obtain ⟨u, hu⟩ := h.bottom
+  obtain ⟨v, hv⟩ := h.left
+  obtain ⟨w, hw⟩ := h.right
+  obtain ⟨t', ht'⟩ := h'.top
+  obtain ⟨u', hu'⟩ := h'.bottom
+  obtain ⟨v', hv'⟩ := h'.left
+  obtain ⟨w', hw'⟩ := h'.right
+  have := h.bound _ _ ht'; have := h.bound _ _ hu'; have := h.bound _ _ hv'; have := h.bound _ _ hw'
+  have := h'.bound _ _ ht; have := h'.bound _ _ hu; have := h'.bound _ _ hv; have := h'.bound _ _ hw
+  omega
+
+theorem inner_of_valAt (R : Rng α) (hi : Inv R) (i : Nat) (h : i < R.inner.length) :
+    R.inner.getD i default = R.valAt (R.sr + i / R.width) (R.sc + i % R.width) := by
+  have hne : R.inner.length ≠ 0 := by omega
+  obtain ⟨o1, o2⟩ := hi.ord hne
+  have hw := hi.width_eq hne
+  have hh := hi.height_eq hne
+  have hlen := hi.len
+  have hwpos : 0 < R.width := by omega
+  have hdiv : i / R.width < R.height := by
+    apply Nat.div_lt_of_lt_mul; rw [Nat.mul_comm]; omega
+  have hmod : i % R.width < R.width := Nat.mod_lt _ hwpos
+  have hdm : i / R.width * R.width + i % R.width = i := by rw [Nat.mul_comm, Nat.div_add_mod]
+  generalize i / R.width = dv at *
+  generalize i % R.width = md at *
+  rw [Range.valAt_of_in R _ _ hne ⟨by omega, by omega, by omega, by omega⟩]
+  congr 1
+  rw [Nat.add_sub_cancel_left, Nat.add_sub_cancel_left, hdm]
+
+theorem rng_ext (R1 R2 : Rng α) (h1 : Inv R1) (h2 : Inv R2) (hne : R1.inner.length ≠ 0)
+    (hne2 : R2.inner.length ≠ 0)
+    (hb : R1.sr = R2.sr ∧ R1.sc = R2.sc ∧ R1.er = R2.er ∧ R1.ec = R2.ec)
+    (hv : ∀ p q, R1.valAt p q = R2.valAt p q) : R1 = R2 := by
+  obtain ⟨a, b, c, d, i1⟩ := R1
+  obtain ⟨a', b', c', d', i2⟩ := R2
+  simp only at hb
+  obtain ⟨rfl, rfl, rfl, rfl⟩ := hb
+  have hw1 := h1.width_eq hne
+  have hw2 := h2.width_eq hne2
+  have hh1 := h1.height_eq hne
+  have hh2 := h2.height_eq hne2
+  have hl1 := h1.len
+  have hl2 := h2.len
+  simp only at hw1 hw2 hh1 hh2 hl1 hl2
+  have hlen : i1.length = i2.length := by rw [hl1, hl2, hw1, hw2, hh1, hh2]
+  congr 1
+  apply List.ext_getElem hlen
+  intro i hi1 hi2
+  have e1 := inner_of_valAt _ h1 i hi1
+  have e2 := inner_of_valAt _ h2 i hi2
+  simp only at e1 e2
+  rw [List.getD_eq_getElem?_getD, List.getElem?_eq_getElem hi1] at e1
+  rw [List.getD_eq_getElem?_getD, List.getElem?_eq_getElem hi2] at e2
+  simp only [Option.getD_some] at e1 e2
+  rw [e1, e2, hw1, hw2]
+  exact hv _ _
+
 end OdsRange
